@@ -20,9 +20,9 @@ from harness.common import rat, wl, lean_list, lean_str, corpus_cases
 
 PID = 'C13'
 MODULES = ['NoteSeqVerif.Props.C13', 'NoteSeqVerif.Props.C13_repeat', 'NoteSeqVerif.Props.C13_interp',
-           'NoteSeqVerif.Props.C13_adjust', 'NoteSeqVerif.Props.C13_durations']
+           'NoteSeqVerif.Props.C13_adjust', 'NoteSeqVerif.Props.C13_durations', 'NoteSeqVerif.Props.C13_compose']
 EXE = 'drv_c13'
-_P, _PR, _PI, _PA, _PD = MODULES
+_P, _PR, _PI, _PA, _PD, _PC = MODULES
 THEOREMS = [(_P, 'NSV.C13.' + t) for t in (
     'shift_spec shift_error_iff stretch_spec stretch_one stretch_error_iff '
     'remove_redundant_in_effect remove_redundant_drops_only_repeats remove_redundant_frame dedup_keeps_first '
@@ -48,7 +48,11 @@ THEOREMS = [(_P, 'NSV.C13.' + t) for t in (
     'rectify_keeps_exactly rectify_raises_iff').split()] + [
     # Props/C13_durations.lean: an explicit duration is judged by value (0 is too short for a non-empty piece)
     (_PD, 'NSV.C13.' + t) for t in (
-    'concat_short_duration_rejected concat_zero_duration_rejected concat_zero_duration_of_empty_piece').split()]
+    'concat_short_duration_rejected concat_zero_duration_rejected concat_zero_duration_of_empty_piece').split()] + [
+    # Props/C13_compose.lean: operation SEQUENCES (an operation applied to the result of another): shift after shift,
+    # stretch after stretch (incl. the f*g = 1 corner, where the one-step code takes its early return), stretch after shift
+    (_PC, 'NSV.C13.' + t) for t in (
+    'shift_shift stretch_stretch stretch_inverse stretch_shift shift_keeps_status stretch_keeps_status').split()]
 
 EV = ['time_signatures', 'key_signatures', 'tempos', 'pitch_bends', 'control_changes',
       'text_annotations', 'section_annotations']
@@ -293,6 +297,20 @@ def request1(sl, case):
     if op == 'stretch':
         f = case['f']
         return 'stretch %s %s' % (rat(f), nswire.encode(seqs[0])), nswire.result_line(sl.stretch_note_sequence, seqs[0], f)
+    if op == 'compose':
+        # tie of Props/C13_compose.lean: the model's ONE-step result for the combined argument must be what the real code
+        # returns after TWO steps (all arithmetic of these cases is exact in doubles), and each real step is compared too
+        (f1, a1), (f2, a2), (fc, ac) = compose_plan(sl, case)
+        name = {sl.shift_sequence_times: 'shift', sl.stretch_note_sequence: 'stretch'}
+        out = [('%s %s %s' % (name[f1], rat(a1), nswire.encode(seqs[0])), nswire.result_line(f1, seqs[0], a1))]
+        try:
+            mid = f1(seqs[0], a1)
+        except Exception:  # pylint: disable=broad-except
+            return out
+        out.append(('%s %s %s' % (name[f2], rat(a2), nswire.encode(mid)), nswire.result_line(f2, mid, a2)))
+        if fc is not None:
+            out.append(('%s %s %s' % (name[fc], rat(ac), nswire.encode(seqs[0])), nswire.result_line(lambda x, _: f2(f1(x, a1), a2), seqs[0], ac)))
+        return out
     if op == 'rr':
         try:
             res = 'ok ' + enc_m(sl.remove_redundant_data(seqs[0]))
@@ -926,7 +944,54 @@ def o_interp(sl, case):
     return None    # numpy's function, no statement of the property about it (correspondence only)
 
 
-ORACLES = {'shift': o_shift, 'stretch': o_stretch, 'rr': o_rr, 'concat': o_concat, 'merge': o_concat,
+def compose_plan(sl, case):
+    """(first step, second step, the single step the two must equal or (None, None))"""
+    k, a, b = case['kind'], case['a'], case['b']
+    sh, st = sl.shift_sequence_times, sl.stretch_note_sequence
+    if k == 'shift2':
+        return (sh, a), (sh, b), (sh, a + b)
+    if k == 'stretch2':
+        return (st, a), (st, b), (st, a * b)
+    return (sh, a), (st, b), (None, None)           # 'stretchshift': compared with stretch-then-shift by the oracle
+
+
+def o_compose(sl, case):
+    """operation sequences on inputs whose arithmetic is exact in doubles (dyadic times, power-of-two factors): the result
+    of the second step applied to the RESULT of the first is the single operation with the combined argument; neither step
+    modifies the object it was given (the original, or the intermediate result)"""
+    ns = from_hex(case['seqs'][0])
+    before = to_hex(ns)
+    (f1, a1), (f2, a2), (fc, ac) = compose_plan(sl, case)
+    mid, e1 = call(f1, ns, a1)
+    if to_hex(ns) != before:
+        return 'compose: argument modified by the first step'
+    if e1 is not None:
+        return expect_err(e1, {'QuantizationStatusError'}) if quantized(ns) else 'compose: first step raised %s on a valid input' % type(e1).__name__
+    mid_before = to_hex(mid)
+    two, e2 = call(f2, mid, a2)
+    if to_hex(mid) != mid_before:
+        return 'compose: the intermediate result was modified by the second step'
+    if to_hex(ns) != before:
+        return 'compose: the original argument changed during the second step (the intermediate result shares memory with it)'
+    if e2 is not None:
+        return 'compose: second step raised %s on the result of the first' % type(e2).__name__
+    if two is mid or two is ns or mid is ns:
+        return 'compose: a step returned the object it was given'
+    if fc is not None:
+        one, e = call(fc, ns, ac)
+        what = '%s(%r) after %s(%r) vs one step with %r' % (f2.__name__, a2, f1.__name__, a1, ac)
+    else:
+        # stretch(shift(s, d), f) == shift(stretch(s, f), d * f)
+        m2, e = call(f2, ns, a2)
+        one, e = call(f1, m2, a1 * a2) if e is None else (None, e)
+        what = 'stretch(%r) after shift(%r) vs shift(%r) after stretch(%r)' % (a2, a1, a1 * a2, a2)
+    if e is not None:
+        return 'compose: %s: the reference computation raised %s' % (what, type(e).__name__)
+    r = first_diff(one, two)
+    return 'compose: %s: %s' % (what, r) if r else None
+
+
+ORACLES = {'compose': o_compose, 'shift': o_shift, 'stretch': o_stretch, 'rr': o_rr, 'concat': o_concat, 'merge': o_concat,
            'adjust': o_adjust, 'rectify': o_rectify, 'repcat': o_repeat, 'expand': o_expand, 'interp': o_interp}
 
 
@@ -1098,6 +1163,44 @@ def case_stretch(rng):
     f = pos_double(rng) if k < 0.86 else rng.choice([1.0, 1, nswire.nextafter_n(1.0, 1), nswire.nextafter_n(1.0, -1)]) if k < 0.92 \
         else rng.choice([0.0, -1.0, -2.5])
     return {'op': 'stretch', 'seqs': [to_hex(ns)], 'f': f}, ['stretch:' + ('one' if f == 1.0 else 'positive' if f > 0 else 'non-positive')]
+
+
+def dyadic_piece(rng):
+    """a generated piece with every time snapped to a multiple of 1/64 below 2^20 and every tempo to a multiple of 1/4 in
+    1..1024: sums with dyadic offsets and products / quotients with power-of-two factors are then exact in doubles"""
+    ns = gen_piece(rng, mag=0.15)
+
+    def snap(t):
+        return round(max(min(t, 2.0 ** 20), 0.0) * 64) / 64
+    for n in ns.notes:
+        n.start_time, n.end_time = snap(n.start_time), snap(n.end_time)
+    for k in EV:
+        for e in getattr(ns, k):
+            e.time = snap(e.time)
+    ns.total_time = snap(ns.total_time)
+    if ns.HasField('subsequence_info'):
+        ns.subsequence_info.start_time_offset = snap(ns.subsequence_info.start_time_offset)
+        ns.subsequence_info.end_time_offset = snap(ns.subsequence_info.end_time_offset)
+    for t in ns.tempos:
+        t.qpm = min(max(round(t.qpm * 4) / 4, 1.0), 1024.0)
+    return ns
+
+
+def case_compose(rng):
+    ns = dyadic_piece(rng)
+    kind = rng.choice(['shift2', 'stretch2', 'stretch2', 'stretchshift'])
+    pw = [0.125, 0.25, 0.5, 2.0, 4.0, 8.0]
+    if kind == 'shift2':
+        a, b = rng.randrange(1, 4096) / 64, rng.randrange(1, 4096) / 64
+        tag = 'sum'
+    elif kind == 'stretch2':
+        a = rng.choice(pw + [1.0])
+        b = 1 / a if rng.random() < 0.35 else rng.choice(pw + [1.0])
+        tag = 'product-one' if a * b == 1.0 else 'one-factor-one' if 1.0 in (a, b) else 'general'
+    else:
+        a, b = rng.randrange(1, 4096) / 64, rng.choice(pw)
+        tag = 'general'
+    return {'op': 'compose', 'kind': kind, 'a': a, 'b': b, 'seqs': [to_hex(ns)]}, ['compose:%s:%s' % (kind, tag)]
 
 
 def case_rr(rng):
@@ -1402,6 +1505,7 @@ STREAMS = [  # (name, case generator, quick count, thorough count)
     ('shift', case_shift, 1500, 30000),
     ('stretch', case_stretch, 1500, 30000),
     ('remove_redundant', case_rr, 1500, 30000),
+    ('compose', case_compose, 1200, 30000),
     ('concatenate', case_concat, 2500, 50000),
     ('merge', lambda rng: case_concat(rng, merge=True), 600, 12000),
     ('adjust', case_adjust, 2000, 40000),
